@@ -40,7 +40,8 @@ pub fn run(sh: &mut shell::Shell, cl: &CommandLine, cmd: &Command,
     }
 
     if !Path::new(&dir_to).exists() {
-        let info = format!("cicada: cd: {}: No such file or directory", &args[1]);
+        let shown = if args.len() > 1 { &args[1] } else { &dir_to };
+        let info = format!("cicada: cd: {}: No such file or directory", shown);
         print_stderr_with_capture(&info, &mut cr, cl, cmd, capture);
         return cr;
     }
